@@ -226,7 +226,17 @@ def hyp_run(
                 state['last'] = (prev, case)
                 raise PropertyViolated(prev, case)
             return
-        res = check_case(case, ctx)
+        try:
+            with _case_watchdog():
+                res = check_case(case, ctx)
+        except _CaseTimeout:
+            # safety net against a case that effectively never ends (e.g. a
+            # recursion that is slow at every level): a time budget hit is
+            # inconclusive, never a violation
+            col.evaluations += 1
+            col.inconclusive += 1
+            col.classes['case-timeout'] += 1
+            return
         col.record(case, res)
         bad = col.filter_known(res.violations)
         if bad:
@@ -272,6 +282,32 @@ def hyp_run(
             col.extra.setdefault('flaky', []).append(repr(exc)[:300])
         else:
             raise
+
+
+class _CaseTimeout(BaseException):
+    pass
+
+
+class _case_watchdog:
+    """SIGALRM based per-case safety net (seconds: VF_CASE_TIMEOUT, default
+    600; 0 disables).  Main thread only."""
+
+    def __enter__(self):
+        import signal
+        self.secs = int(os.environ.get('VF_CASE_TIMEOUT', '600') or 0)
+        if self.secs:
+            def fire(_sig, _frm):
+                raise _CaseTimeout()
+            self.old = signal.signal(signal.SIGALRM, fire)
+            signal.alarm(self.secs)
+        return self
+
+    def __exit__(self, *a):
+        import signal
+        if self.secs:
+            signal.alarm(0)
+            signal.signal(signal.SIGALRM, self.old)
+        return False
 
 
 def _is_flaky(exc: BaseException) -> bool:
